@@ -23,7 +23,7 @@ ASSUMPTIONS = [
     "where NumPy returns NaN with a warning (all-NaN, too few values) the helper must return a null (NaN) as well",
     "pretty_cut labels are parsed as ' <= b', ' > b', 'l - r' (integers: l..r inclusive; floats: l < x <= r) or a single value",
 ]
-N_CASES = {"quick": 2500, "thorough": 80000}
+N_CASES = {"quick": 2500, "thorough": 30000}
 PARTS = ["nanops", "nanops", "nanops2d", "dot", "bools_exh", "bools_rand", "cut", "nanops"]
 
 
